@@ -64,6 +64,54 @@ finally:
 '''
 
 
+CHILD_TWINS = r'''
+import os, sys, tempfile, shutil
+os.environ.setdefault("NO_ET", "1")
+from pydra.compose import python, workflow
+
+@python.define
+def Add(a: int, b: int = 1) -> int:
+    return a + b
+
+def mk(k, consumer):
+    @workflow.define
+    def Twins(x: int) -> int:
+        nodes = [workflow.add(Add(a=x, b=2), name=f"t{i}") for i in range(k)]   # k nodes with the SAME task and inputs
+        last = nodes[0]
+        if consumer:
+            last = workflow.add(Add(a=nodes[-1].out, b=nodes[0].out), name="c")
+        return last.out
+    return Twins
+
+k, consumer, worker, second = int(sys.argv[1]), sys.argv[2] == "consumer", sys.argv[3], sys.argv[4]
+tmp = tempfile.mkdtemp(prefix="vf_c18t_")
+try:
+    kw = {"n_procs": 2} if worker == "cf" else {}
+    outs = []
+    for rerun in ([False] if second == "none" else [False, second == "rerun"]):
+        outs.append(mk(k, consumer)(x=1)(cache_root=tmp, worker=worker, rerun=rerun, **kw).out)
+    print("RETURNED", outs)
+except BaseException as e:
+    print("RAISED", type(e).__name__, str(e)[:100].replace("\n", " "))
+finally:
+    shutil.rmtree(tmp, ignore_errors=True)
+'''
+
+
+def twins_case(k, consumer, worker, second, timeout=120):
+    """workflows with several IDENTICAL jobs (same task, same inputs, different nodes); `second` = none / plain / rerun
+    (a second submission into the same cache root, plain or with rerun=True).  A hang verdict is repeated once with a four
+    times longer watchdog"""
+    for to in (timeout, timeout * 4):
+        try:
+            r = subprocess.run([sys.executable, "-c", CHILD_TWINS, str(k), "consumer" if consumer else "plain", worker, second], env=dict(os.environ), capture_output=True, text=True, timeout=to)
+            line = [l for l in r.stdout.splitlines() if l.startswith(("RAISED", "RETURNED"))]
+            return {"twins": k, "consumer": consumer, "worker": worker, "second": second, "outcome": line[-1] if line else f"exit {r.returncode}: {r.stderr[-200:]}", "hung": False}
+        except subprocess.TimeoutExpired:
+            continue
+    return {"twins": k, "consumer": consumer, "worker": worker, "second": second, "outcome": "TIMEOUT", "hung": True}
+
+
 def cyc_case(n, typed, worker, timeout=120):
     """a hang verdict is repeated once with a four times longer watchdog (loaded machines)"""
     o = _cyc_case(n, typed, worker, timeout)
@@ -190,10 +238,48 @@ def run(ctx):
                     ctx.fail(f"cyclic-workflow-hangs:{'typed' if typed else 'untyped'}", f"submission of a cyclic workflow (cycle length {n}, typed={typed}, worker={worker}) did not end within the watchdog (120 s, then 480 s)", o, domain=dom2)
                 elif not o["outcome"].startswith("RAISED"):
                     ctx.fail("cyclic-workflow-no-error", f"cyclic workflow gave {o['outcome']}", o, domain=dom2)
+    twins_domain(ctx)
+
+
+def twins_domain(ctx):
+    dom3 = ctx.domain(
+        "workflows-with-identical-jobs",
+        bound="2 and 3 nodes with the same task and the same inputs (one cache identity), with and without a node consuming them x debug / cf worker x second submission into the same cache root (none, plain, rerun=True); watchdog 120 s, repeated once with 480 s",
+        rule="one child process per case: the submission(s) must end with outputs (3 resp. 6) or an error; non-trivial: all",
+        exhaustive=True,
+    )
+    n_hung = 0
+    for k in (2, 3):
+        for consumer in (False, True):
+            for worker in ("debug", "cf"):
+                for second in ("none", "plain", "rerun"):
+                    if not ctx.thorough and (k == 3 and not consumer):
+                        continue
+                    if n_hung >= 2:
+                        continue  # every hang costs 10 minutes of watchdog; two reported hangs are enough
+                    o = twins_case(k, consumer, worker, second)
+                    dom3.case((k, consumer, worker, second), sample=o)
+                    exp = 6 if consumer else 3
+                    if o["hung"]:
+                        n_hung += 1
+                        if n_hung == 2:
+                            dom3.exhaustive = False
+                            ctx.note("workflows-with-identical-jobs: enumeration stopped after 2 hanging submissions")
+                        ctx.fail(None, f"submission of a workflow with {k} identical jobs (consumer={consumer}, worker={worker}, second submission: {second}) did not end within the watchdog (120 s, then 480 s)", o, domain=dom3)
+                    elif not o["outcome"].startswith("RETURNED") or any(str(exp) != v.strip() for v in o["outcome"][len("RETURNED [") : -1].split(",")):
+                        ctx.fail(None, f"workflow with {k} identical jobs (consumer={consumer}, worker={worker}, second: {second}) gave {o['outcome']}, expected output {exp}", o, domain=dom3)
 
 
 def replay(rec):
     case = rec["case"]
+    if "twins" in case:
+        o = twins_case(case["twins"], case["consumer"], case["worker"], case["second"])
+        print("replay C18:", o)
+        exp = 6 if case["consumer"] else 3
+        bad = o["hung"] or not o["outcome"].startswith("RETURNED") or any(str(exp) != v.strip() for v in o["outcome"][len("RETURNED [") : -1].split(","))
+        if bad:
+            print("VIOLATION property=C18 replay=(replayed)")
+        return 1 if bad else 0
     if "cycle_len" in case:
         o = cyc_case(case["cycle_len"], case["typed"], case["worker"])
         print("replay C18:", o)
